@@ -20,6 +20,24 @@ CHECKS = {
  "C04": _q("C04", "TLC enumerates label configurations x presence histories x step counts x NaN/Inf members (AggLaw model-checked on all); aggregator, grouping and parameter chosen by seeded hash.", "DESIGN.md §6 C04"),
  "C05": _q("C05", "TLC enumerates label configurations of two metrics x presence histories x step counts (BinLaw model-checked on all); operator, matching, cardinality/include, bool, scalar operands and wrappers chosen by seeded hash; the specification also names the reason for which the reference fails a step.", "DESIGN.md §6 C05"),
  "C06": _q("C06", "TLC enumerates presence histories x value domains x step counts 1..101 x lookbacks (FuncLaw model-checked on all); 40 expression shapes over all native functions, scalars, unary minus and @-pinned parts chosen by seeded hash.", "DESIGN.md §6 C06"),
+ "C07": {
+  "text": "Design level: Volcano.tla (batch mechanics) model-checked for every topology and step count: one point per grid step, siblings aligned. Implementation level: for the scenarios of all TLC generators and seeded random ones the range query, instant queries at grid points on both sides of every batch boundary and sub-windows are executed on the real engine; TLC validates every observation against SessionTrace.tla (a result at a timestamp is a function of query, timestamp and data only).",
+  "design_ref": "DESIGN.md §6 C07",
+  "note": "Trusted: the Go comparator's equality classes (1e-9), the projection of a range result at a timestamp; queries with start()/end() excluded as the property states; instants sampled (not all) for windows of more than 12 steps.",
+  "technique": "TLA+ session specification (SessionTrace) validated by TLC on recorded histories of range / instant / sub-window executions + TLC model checking of Volcano.tla",
+ },
+ "C18": {
+  "text": "Design level: Volcano.tla model-checked (contract and alignment on every edge). Implementation level: hook H1 wraps every operator of every physical plan (reflection over operator fields, so new operator kinds are covered); plans for the scenarios of all generators run in four modes (passive, Series-first, extra Next after end, seeded yields); TLC validates clauses S1-S8 of StreamTrace.tla on every Series/Next event and the agreement of the modes' results.",
+  "design_ref": "DESIGN.md §3.4, §6 C18",
+  "note": "Trusted: the recording wrapper (harness/optrace), sequence numbers from one atomic counter; an empty batch is admitted by S3 (nothing delivered); perturbation is seeded yields, not exhaustive scheduling.",
+  "technique": "trace validation by TLC of operator-boundary events (hook H1) against StreamTrace.tla + TLC model checking of Volcano.tla",
+ },
+ "C19": {
+  "text": "Every result produced for the scenarios of all generators, the random generator and the dedicated family Gen_WF (1e308 magnitudes, denormals, name-dropping collisions, include labels that exist / sort first, histogram_quantile over two metrics, empty results) is validated by TLC against the well-formedness clauses of QueryTrace.tla.",
+  "design_ref": "DESIGN.md §6 C19",
+  "note": "Trusted: byte-order ranks of label names/values computed by the harness; raw result order is logged unmodified.",
+  "technique": "trace validation by TLC of recorded results against the ResultWF clauses of QueryTrace.tla",
+ },
  "C02": {
   "text": "Exhaustive small-scope enumeration by TLC of sample layouts x lookback x per-query lookback x offset x @ x step x window (SelectionLaw model-checked on every enumerated scenario); boundary scenarios replayed through the real engine and Prometheus; each result validated by TLC against PromQLRef's denotation and the reference result.",
   "design_ref": "DESIGN.md §6 C02",
